@@ -43,6 +43,26 @@ CHECKS = {
             'Trusts HiGHS (LP) and ECOS (conic) optima; ECOS "close to optimal"/failed statuses are inconclusive; tolerance 1e-6 / 2e-4 '
             'relative; models are feasible, bounded and strictly feasible by construction.',
             'DESIGN.md section 4 / C08'),
+    'C06': ('property-based testing with a NumPy re-evaluation oracle: every user constraint and the user objective are evaluated '
+            'by independent atom formulas at x.get() / compared with model.get()',
+            'Generated-input search over deterministic models covering every atom and cone constraint of the front ends in six '
+            'spellings, with multipliers, offsets and double negation, as constraint and as objective, with continuous/integer/'
+            'binary variables, in ro and dro; the objective is aimed at a focus constraint so that a dropped or replaced '
+            'constraint shows as a positive residual, a dropped objective as get() != f(x*) or a solver certificate of '
+            'unboundedness on a box-bounded model. Sampling, not proof.',
+            'Own NumPy formulas for all atoms; tolerance 1e-6 (LP/MILP) / 5e-5 (conic) times the row scale; closure points of cones '
+            '(z=0 in expcone, p=0 in kldiv/entropy) accepted within 1e-6; ECOS failures skipped; integer + exp-cone models not '
+            'generated (ECOS_BB is not exact).',
+            'DESIGN.md section 4 / C06'),
+    'C07': ('property-based testing with three oracles: closed forms of pinned atoms, feasible points constructed under NumPy '
+            'evaluation, brute-force enumeration of small MILPs with an inner scipy LP',
+            'Generated-input search over (a) single atoms with parameters drawn from the whole admissible space (p-norm degrees, '
+            'reduced fractions a/b, power p/q, geometric-mean weights, PSD/NSD incl. singular matrices, multipliers) pinned to an '
+            'argument, (b) the C06 models checked against feasible points of the user model (direction C06 cannot see: a compiled '
+            'program that is too tight), (c) small mixed-integer models with arbitrary user bounds on binaries/integers and '
+            'auxiliary columns. Sampling, not proof.',
+            'Tolerance 1e-6 (LP) / 1e-4 (conic) relative; brute force limited to 400 integer points; ECOS failures skipped.',
+            'DESIGN.md section 4 / C07'),
 }
 
 NOT_YET = 'check not built yet in this round (see DESIGN.md section 4 for the planned generator and oracle)'
